@@ -675,6 +675,29 @@ def reshaper(draw, d, v, defect=None):
     rewrite inventories and allocations of 1-2 providers together."""
     ex = existing(d)
     labels = []
+    used_rps = sorted({p for (_c, p, _k) in d.allocations})
+    if defect == 'empties-used-provider' and used_rps:
+        # a provider keeps its allocations (re-stated unchanged, or simply
+        # not mentioned) while its inventory is replaced by nothing
+        u = draw(st.sampled_from(used_rps))
+        allocs = {}
+        if draw(st.booleans()):
+            for c in sorted({c for (c, p, _k) in d.allocations if p == u}):
+                amap = {}
+                for (cc, p, rc), a in d.allocations.items():
+                    if cc == c:
+                        amap.setdefault(p, {'resources': {}})[
+                            'resources'][rc] = a
+                entry = {'allocations': amap}
+                _consumer_fields(draw, d, v, c, entry, None, [])
+                allocs[c] = entry
+        body = {'inventories': {u: {
+            'resource_provider_generation': d.providers[u]['generation'],
+            'inventories': {}}}, 'allocations': allocs}
+        return R('POST', '/reshaper', v, body, 'reshaper',
+                 ['empties-used-provider', 'drops-class'] +
+                 (['with-allocations'] if allocs else []),
+                 consumers=sorted(allocs), roles=['service'], tok='svc')
     rps = draw(st.lists(st.sampled_from(ex), min_size=1, max_size=2,
                         unique=True))
     inv_body = {}
